@@ -157,3 +157,125 @@ VARIANTS += [
       find='\tif bundle.DeltaCRL != nil {\n\t\tcontent.DeltaCRL = bundle.DeltaCRL.Raw\n\t}\n\tcontentBytes, err := json.Marshal(content)\n',
       replace='\tcontentBytes, err := json.Marshal(content)\n\tif bundle.DeltaCRL != nil {\n\t\tcontent.DeltaCRL = bundle.DeltaCRL.Raw\n\t}\n'),
 ]
+
+# ---- second pass: the encoder in a function Set calls; several bundle objects built in the decoding function and the
+# ---- expiry facts stated on the value Get returns; a constructor for the bundle; one error variable for two steps
+SET_ENC_OLD = SET_OLD
+def enc_helper(call='\tcontentBytes, err := encodeBundle(bundle)\n', body=None, marshal='\treturn json.Marshal(content)\n'):
+    if body is None:
+        body = '\tvar content fileCacheContent\n\tcontent.BaseCRL = bundle.BaseCRL.Raw\n\tif bundle.DeltaCRL != nil {\n\t\tcontent.DeltaCRL = bundle.DeltaCRL.Raw\n\t}\n'
+    return [(C, SET_ENC_OLD, call),
+            (C, SET_DOC, '// encodeBundle returns the content to be saved in the cache for bundle\nfunc encodeBundle(bundle *corecrl.Bundle) ([]byte, error) {\n' + body + marshal + '}\n\n' + SET_DOC)]
+VARIANTS += [
+ dict(name='benign-encode-helper', expect='silent', edits=enc_helper(),
+      why='what is written is result 0 of the json.Marshal call the helper forwards; the helper reports success only if that call did'),
+ dict(name='benign-encode-helper-checks-error-itself', expect='silent',
+      edits=enc_helper(marshal='\tb, err := json.Marshal(content)\n\tif err != nil {\n\t\treturn nil, fmt.Errorf("encode: %w", err)\n\t}\n\treturn b, nil\n')),
+ dict(name='encode-helper-swallows-marshal-error', expect='flagged(set/marshal-error)',
+      edits=enc_helper(marshal='\tb, _ := json.Marshal(content)\n\treturn b, nil\n')),
+ dict(name='encode-helper-error-ignored-by-set', expect='flagged(set/marshal-error)', edits=enc_helper(call='\tcontentBytes, _ := encodeBundle(bundle)\n\tvar err error\n')),
+ dict(name='encode-helper-marshals-base-only-copy', expect='flagged(pairing/set)',
+      edits=enc_helper(marshal='\treturn json.Marshal(fileCacheContent{BaseCRL: content.BaseCRL})\n')),
+ dict(name='encode-helper-delta-from-base', expect='flagged(pairing/set)',
+      edits=enc_helper(body='\tvar content fileCacheContent\n\tcontent.BaseCRL = bundle.BaseCRL.Raw\n\tif bundle.DeltaCRL != nil {\n\t\tcontent.DeltaCRL = bundle.BaseCRL.Raw\n\t}\n')),
+ dict(name='encode-helper-drops-large-delta', expect='flagged(set/delta-stored-when-present)',
+      edits=enc_helper(body='\tvar content fileCacheContent\n\tcontent.BaseCRL = bundle.BaseCRL.Raw\n\tif bundle.DeltaCRL != nil && len(bundle.DeltaCRL.Raw) < 4096 {\n\t\tcontent.DeltaCRL = bundle.DeltaCRL.Raw\n\t}\n')),
+ dict(name='encode-helper-returns-a-prefix', expect='flagged(set/writes-marshalled-entry)',
+      edits=enc_helper(marshal='\tb, err := json.Marshal(content)\n\tif err != nil {\n\t\treturn nil, err\n\t}\n\treturn b[:len(b)&^511], nil\n')),
+]
+def get_two_literals(no_delta_guard='content.DeltaCRL == nil', first='&corecrl.Bundle{BaseCRL: baseCRL}', second='&corecrl.Bundle{BaseCRL: baseCRL, DeltaCRL: deltaCRL}',
+                     delta_arg='content.DeltaCRL', base_chk=BASE_CHK, delta_chk='\tif bundle.DeltaCRL == nil {\n\t\treturn nil\n\t}\n\tif err := checkExpiry(ctx, bundle.DeltaCRL.NextUpdate); err != nil {\n\t\treturn fmt.Errorf("check DeltaCRL expiry failed: %w", err)\n\t}\n',
+                     expiry_arg='bundle', ret='bundle', extra=''):
+    return ('\tbundle, err := decodeBundle(contentBytes)\n\tif err != nil {\n\t\treturn nil, err\n\t}\n\tif err := checkBundleExpiry(ctx, ' + expiry_arg + '); err != nil {\n\t\treturn nil, err\n\t}\n\treturn ' + ret + ', nil\n}\n\n'
+            + '// decodeBundle decodes the content of a cache file to a crl Bundle\nfunc decodeBundle(contentBytes []byte) (*corecrl.Bundle, error) {\n' + DEC_OLD
+            + '\tbaseCRL, err := x509.ParseRevocationList(content.BaseCRL)\n\tif err != nil {\n\t\treturn nil, fmt.Errorf("failed to parse base CRL of file retrieved from file cache: %w", err)\n\t}\n'
+            + '\tif ' + no_delta_guard + ' {\n\t\treturn ' + first + ', nil\n\t}\n'
+            + '\tdeltaCRL, err := x509.ParseRevocationList(' + delta_arg + ')\n\tif err != nil {\n\t\treturn nil, fmt.Errorf("failed to parse delta CRL of file retrieved from file cache: %w", err)\n\t}\n'
+            + '\treturn ' + second + ', nil\n}\n\n' + extra
+            + '// checkBundleExpiry returns nil when neither CRL of bundle has expired\nfunc checkBundleExpiry(ctx context.Context, bundle *corecrl.Bundle) error {\n' + base_chk + delta_chk + '\treturn nil\n')
+CTOR = '// newBundle builds the bundle handed out\nfunc newBundle(base, delta *x509.RevocationList) *corecrl.Bundle {\n\treturn &corecrl.Bundle{BaseCRL: base, DeltaCRL: delta}\n}\n\n'
+def get_ctor(args='baseCRL, deltaCRL', ctor=CTOR):
+    return ('\tbundle, err := decodeBundle(contentBytes)\n\tif err != nil {\n\t\treturn nil, err\n\t}\n\tif err := checkBundleExpiry(ctx, bundle); err != nil {\n\t\treturn nil, err\n\t}\n\treturn bundle, nil\n}\n\n'
+            + '// decodeBundle decodes the content of a cache file to a crl Bundle\nfunc decodeBundle(contentBytes []byte) (*corecrl.Bundle, error) {\n' + DEC_OLD
+            + '\tbaseCRL, err := x509.ParseRevocationList(content.BaseCRL)\n\tif err != nil {\n\t\treturn nil, fmt.Errorf("failed to parse base CRL of file retrieved from file cache: %w", err)\n\t}\n'
+            + '\tvar deltaCRL *x509.RevocationList\n\tif content.DeltaCRL != nil {\n\t\tif deltaCRL, err = x509.ParseRevocationList(content.DeltaCRL); err != nil {\n\t\t\treturn nil, fmt.Errorf("failed to parse delta CRL of file retrieved from file cache: %w", err)\n\t\t}\n\t}\n'
+            + '\treturn newBundle(' + args + '), nil\n}\n\n' + ctor
+            + '// checkBundleExpiry returns nil when neither CRL of bundle has expired\nfunc checkBundleExpiry(ctx context.Context, bundle *corecrl.Bundle) error {\n' + BASE_CHK + DELTA_CHK + '\treturn nil\n')
+VARIANTS += [
+ dict(name='benign-get-two-bundle-literals', file=C, expect='silent', find=GET_TAIL_OLD, replace=get_two_literals(),
+      why='each object Get can return is filled from the parse results of the like-named entry fields, the one without a delta is built only where the entry stores none; the expiry facts are about the value Get returns'),
+ dict(name='two-literals-second-drops-delta', file=C, expect='flagged(pairing/get)', find=GET_TAIL_OLD,
+      replace=get_two_literals(second='&corecrl.Bundle{BaseCRL: baseCRL}').replace('\tdeltaCRL, err := x509', '\t_, err = x509')),
+ dict(name='two-literals-no-delta-arm-for-short-base', file=C, expect='flagged(pairing/get)', find=GET_TAIL_OLD,
+      replace=get_two_literals(no_delta_guard='content.DeltaCRL == nil || len(content.BaseCRL) < 64')),
+ dict(name='two-literals-fields-swapped', file=C, expect='flagged(pairing/get)', find=GET_TAIL_OLD,
+      replace=get_two_literals(second='&corecrl.Bundle{BaseCRL: deltaCRL, DeltaCRL: baseCRL}')),
+ dict(name='two-literals-delta-parsed-from-base', file=C, expect='flagged(pairing/get)', find=GET_TAIL_OLD, replace=get_two_literals(delta_arg='content.BaseCRL')),
+ dict(name='two-literals-delta-expiry-dropped', file=C, expect='flagged(get/delta-expiry)', find=GET_TAIL_OLD, replace=get_two_literals(delta_chk='')),
+ dict(name='two-literals-base-expiry-dropped', file=C, expect='flagged(get/base-expiry)', find=GET_TAIL_OLD, replace=get_two_literals(base_chk='')),
+ dict(name='two-literals-expiry-of-rebuilt-bundle', file=C, expect='flagged(get/)', find=GET_TAIL_OLD,
+      replace=get_two_literals(expiry_arg='&corecrl.Bundle{BaseCRL: bundle.BaseCRL}')),
+ dict(name='two-literals-returns-rebuilt-bundle', file=C, expect='flagged(get/)', find=GET_TAIL_OLD,
+      replace=get_two_literals(ret='&corecrl.Bundle{BaseCRL: bundle.BaseCRL}')),
+ dict(name='two-literals-expiry-helper-drops-delta', file=C, expect='flagged(pairing/get)', find=GET_TAIL_OLD,
+      replace=get_two_literals(delta_chk='\tif bundle.DeltaCRL != nil && time.Now().After(bundle.DeltaCRL.NextUpdate) {\n\t\tbundle.DeltaCRL = nil\n\t}\n')),
+ dict(name='benign-get-bundle-constructor', file=C, expect='silent', find=GET_TAIL_OLD, replace=get_ctor(),
+      why='the constructor stores its parameters; at its only call they are the parse results of the like-named entry fields (nil or the parsed delta)'),
+ dict(name='benign-get-bundle-constructor-params-swapped', file=C, expect='silent', find=GET_TAIL_OLD,
+      replace=get_ctor(args='deltaCRL, baseCRL', ctor=CTOR.replace('base, delta *x509', 'delta, base *x509'))),
+ dict(name='bundle-constructor-args-swapped', file=C, expect='flagged(pairing/get)', find=GET_TAIL_OLD, replace=get_ctor(args='deltaCRL, baseCRL')),
+ dict(name='bundle-constructor-drops-delta', file=C, expect='flagged(pairing/get)', find=GET_TAIL_OLD,
+      replace=get_ctor(ctor=CTOR.replace('BaseCRL: base, DeltaCRL: delta', 'BaseCRL: base'))),
+]
+WR_OLD = '\tcontentBytes, err := json.Marshal(content)\n\tif err != nil {\n\t\treturn fmt.Errorf("failed to store crl bundle in file cache: %w", err)\n\t}\n\tif err := file.WriteFile(c.root, filepath.Join(c.root, c.fileName(url)), contentBytes); err != nil {\n\t\treturn fmt.Errorf("failed to store crl bundle in file cache: %w", err)\n\t}\n\treturn nil\n'
+def one_err(cond='err == nil', test='err != nil'):
+    return ('\tcontentBytes, err := json.Marshal(content)\n\tif ' + cond + ' {\n\t\terr = file.WriteFile(c.root, filepath.Join(c.root, c.fileName(url)), contentBytes)\n\t}\n'
+            + '\tif ' + test + ' {\n\t\treturn fmt.Errorf("failed to store crl bundle in file cache: %w", err)\n\t}\n\treturn nil\n')
+VARIANTS += [
+ dict(name='benign-set-one-error-variable', file=C, expect='silent', find=WR_OLD, replace=one_err(),
+      why='err == nil at the single test implies both steps succeeded: the write runs only after the marshal succeeded, and the marshal error arrives at the test non-nil'),
+ dict(name='one-error-variable-write-despite-marshal-error', file=C, expect='flagged(set/marshal-error)', find=WR_OLD, replace=one_err(cond='err == nil || len(contentBytes) == 0')),
+ dict(name='one-error-variable-overwritten', file=C, expect='flagged(set/marshal-error)', find=WR_OLD, replace=one_err(cond='true')),
+ dict(name='one-error-variable-permission-error-tolerated', file=C, expect='flagged(set/write-error)', find=WR_OLD, replace=one_err(test='err != nil && !errors.Is(err, fs.ErrPermission)')),
+]
+
+# ---- the expiry checks as one loop over a table of the bundle's lists
+EXPIRY_OLD = '\tif err := checkExpiry(ctx, bundle.BaseCRL.NextUpdate); err != nil {\n\t\treturn nil, fmt.Errorf("check BaseCRL expiry failed: %w", err)\n\t}\n\tif bundle.DeltaCRL != nil {\n\t\tif err := checkExpiry(ctx, bundle.DeltaCRL.NextUpdate); err != nil {\n\t\t\treturn nil, fmt.Errorf("check DeltaCRL expiry failed: %w", err)\n\t\t}\n\t}\n'
+def table_loop(rows='\t\t{"BaseCRL", bundle.BaseCRL},\n\t\t{"DeltaCRL", bundle.DeltaCRL},\n', skip='part.crl == nil', head='for _, part := range parts {',
+               fail='return nil, fmt.Errorf("check %s expiry failed: %w", part.name, err)', pre=''):
+    return ('\tparts := []struct {\n\t\tname string\n\t\tcrl  *x509.RevocationList\n\t}{\n' + rows + '\t}\n' + pre + '\t' + head + '\n\t\tif ' + skip + ' {\n\t\t\tcontinue\n\t\t}\n'
+            + '\t\tif err := checkExpiry(ctx, part.crl.NextUpdate); err != nil {\n\t\t\t' + fail + '\n\t\t}\n\t}\n')
+VARIANTS += [
+ dict(name='benign-expiry-table-loop', file=C, expect='silent', find=EXPIRY_OLD, replace=table_loop(),
+      why='a range loop over a local table visits every row before the function can succeed; each row is nil or checked; the base list is the result of a parse whose error was tested nil'),
+ dict(name='benign-expiry-table-loop-three-columns', file=C, expect='silent', find=EXPIRY_OLD,
+      replace=table_loop().replace('\t\tname string\n', '\t\tname string\n\t\tmust bool\n').replace('{"BaseCRL", bundle.BaseCRL}', '{"BaseCRL", true, bundle.BaseCRL}').replace('{"DeltaCRL", bundle.DeltaCRL}', '{"DeltaCRL", false, bundle.DeltaCRL}')),
+ dict(name='table-loop-stops-after-first-row', file=C, expect='flagged(get/delta-expiry)', find=EXPIRY_OLD,
+      replace=table_loop(head='for i, part := range parts {\n\t\tif i > 0 {\n\t\t\tbreak\n\t\t}')),
+ dict(name='table-loop-delta-row-missing', file=C, expect='flagged(get/delta-expiry)', find=EXPIRY_OLD, replace=table_loop(rows='\t\t{"BaseCRL", bundle.BaseCRL},\n')),
+ dict(name='table-loop-delta-row-holds-base', file=C, expect='flagged(get/delta-expiry)', find=EXPIRY_OLD,
+      replace=table_loop(rows='\t\t{"BaseCRL", bundle.BaseCRL},\n\t\t{"DeltaCRL", bundle.BaseCRL},\n')),
+ dict(name='table-loop-skips-delta-row', file=C, expect='flagged(get/delta-expiry)', find=EXPIRY_OLD, replace=table_loop(skip='part.crl == nil || part.name == "DeltaCRL"')),
+ dict(name='table-loop-failure-only-logged', file=C, expect='flagged(get/)', find=EXPIRY_OLD, replace=table_loop(fail='logger.Debugf("stale %s: %v", part.name, err)')),
+ dict(name='table-loop-row-cleared-before-loop', file=C, expect='flagged(get/delta-expiry)', find=EXPIRY_OLD, replace=table_loop(pre='\tparts[1].crl = nil\n')),
+ dict(name='table-loop-ranges-over-first-row-only', file=C, expect='flagged(get/delta-expiry)', find=EXPIRY_OLD, replace=table_loop(head='for _, part := range parts[:1] {')),
+ dict(name='table-loop-built-before-delta-is-parsed', file=C, expect='flagged(get/delta-expiry)',
+      find='\tif content.DeltaCRL != nil {\n\t\tbundle.DeltaCRL, err = x509.ParseRevocationList(content.DeltaCRL)',
+      replace='\tparts := []struct {\n\t\tname string\n\t\tcrl  *x509.RevocationList\n\t}{\n\t\t{"BaseCRL", bundle.BaseCRL},\n\t\t{"DeltaCRL", bundle.DeltaCRL},\n\t}\n\tif content.DeltaCRL != nil {\n\t\tbundle.DeltaCRL, err = x509.ParseRevocationList(content.DeltaCRL)',
+      edits=[(C, EXPIRY_OLD, table_loop().split('\t}\n', 1)[1])]),
+]
+# ---- the key is the key of the identical URL string (decided on values: the printed key does not mention its argument)
+VARIANTS += [
+ dict(name='get-key-of-lowered-url', file=C, expect='flagged(confinement/Get)', find='contentBytes, err := os.ReadFile(filepath.Join(c.root, c.fileName(url)))',
+      replace='contentBytes, err := os.ReadFile(filepath.Join(c.root, c.fileName(strings.ToLower(url))))', edits=[(C, '\t"path/filepath"\n', '\t"path/filepath"\n\t"strings"\n')]),
+ dict(name='set-key-of-trimmed-url', file=C, expect='flagged(confinement/Set)', find='file.WriteFile(c.root, filepath.Join(c.root, c.fileName(url)), contentBytes)',
+      replace='file.WriteFile(c.root, filepath.Join(c.root, c.fileName(strings.TrimSuffix(url, "/"))), contentBytes)', edits=[(C, '\t"path/filepath"\n', '\t"path/filepath"\n\t"strings"\n')]),
+ dict(name='benign-entry-path-helper', expect='silent',
+      edits=[(C, 'contentBytes, err := os.ReadFile(filepath.Join(c.root, c.fileName(url)))', 'contentBytes, err := os.ReadFile(c.entryPath(url))'),
+             (C, 'file.WriteFile(c.root, filepath.Join(c.root, c.fileName(url)), contentBytes)', 'file.WriteFile(c.root, c.entryPath(url), contentBytes)'),
+             (C, SET_DOC, '// entryPath returns the path of the entry of url\nfunc (c *FileCache) entryPath(url string) string {\n\treturn filepath.Join(c.root, c.fileName(url))\n}\n\n' + SET_DOC)]),
+ dict(name='entry-path-helper-fed-host-only', expect='flagged(confinement/Get)',
+      edits=[(C, 'contentBytes, err := os.ReadFile(filepath.Join(c.root, c.fileName(url)))', 'contentBytes, err := os.ReadFile(c.entryPath(strings.SplitN(url, "?", 2)[0]))'),
+             (C, '\t"path/filepath"\n', '\t"path/filepath"\n\t"strings"\n'),
+             (C, SET_DOC, '// entryPath returns the path of the entry of url\nfunc (c *FileCache) entryPath(url string) string {\n\treturn filepath.Join(c.root, c.fileName(url))\n}\n\n' + SET_DOC)]),
+]
